@@ -240,7 +240,7 @@ theorem exec_loadItems (K : PCtx) (wf : K.WF) (σ : X.St) : ∀ (args : List AEx
 
 theorem genCallActuals_facts (ctx : Xcmp.Ctx) : ∀ (args : List AExpr) (gs : GS) (code : Code) (gs' : GS),
     genCallActuals ctx args gs = .ok (code, gs') →
-    gs'.offset = gs.offset + countCalls args ∧ gs.size ≤ gs'.size ∧ (∀ e ∈ gs.constMap, e ∈ gs'.constMap) ∧
+    gs'.offset = gs.offset + countCalls args ∧ gs.size ≤ gs'.size ∧ (∀ e ∈ gs.items, e ∈ gs'.items) ∧
     (gs.offset ≤ gs.size → gs'.offset ≤ gs'.size) := by
   intro args
   induction args with
@@ -269,7 +269,7 @@ theorem exec_saveItems (K : PCtx) (wf : K.WF) (σ : X.St) : ∀ (args : List AEx
       gs'.size ≤ K.S → K.nlocals ≤ gs.offset → gs'.offset ≤ gs'.size → ConstsIn K gs' →
       ∃ a' b' mem', Steps K.env (cfg i a b mem) σ.io (cfg (i + (K.low code).length) a' b' mem') σ.io ∧ Rep K σ mem' ∧
         SavedOk K mem' args ws gs.offset ∧ gs'.offset = gs.offset + countCalls args ∧ gs.size ≤ gs'.size ∧
-        (∀ e ∈ gs.constMap, e ∈ gs'.constMap) ∧ FrmC K gs.offset K.S mem mem' := by
+        (∀ e ∈ gs.items, e ∈ gs'.items) ∧ FrmC K gs.offset K.S mem mem' := by
   intro args
   induction args with
   | nil =>
